@@ -575,6 +575,10 @@ func runC05(c *core.Ctx, o Options) {
 	c.Explanation += " K11 (= C04.F4): per connection exactly one goroutine of each serve function writes the socket, one reads and one forwards; two writers draining the same queue reorder the stream."
 	c.Explanation += " K4 also: ResetSeqNum stores the constant 0 in the counter it resets (GetNextSeqNum returns counter+1). K5 also: Session.timeLocation is only assigned time.LoadLocation(configured) or time.UTC, followed through results of package functions. K10 premise (= C13.Z5): the handler, and with it the session, lives on the per-connection context that the connection's tear-down cancels."
 	c.Explanation += " K11 also: Conn.Write calls net.Conn.Write exactly once, outside any loop."
+	// K4 (premise): the bundled store's Save leaves the counters alone and Messages is read-only (a retransmission passes the saving
+	// handler again; the lookup runs on the inbound goroutine without the session mutex)
+	checkCounterStorePlain(c, "K4")
+	c.Explanation += " K4 also: memory.Storage.Save writes no counter, Messages modifies neither counters nor stored messages, SetSeqNum stores what it is given and returns nil."
 	c.RuleMin = map[string]int{"K1": 6, "K2": 4, "K3": 8, "K4": 6, "K5": 8, "K6": 1, "K7": 3, "K8": 3, "K9": 2, "K10": 8, "K11": 6}
 	c.MinObl = 35
 }
